@@ -143,6 +143,64 @@ def check_formats(ctx, tmpdir):
                         ctx.violation(key, what + " (%s)" % "; ".join(notes)[:120], case)
 
 
+
+def check_file_detection(ctx, tmpdir):
+    """mutagen.File(thing): the same type and the same tags however the file is passed - including file objects whose
+    optional `name` is str or bytes (open(os.fsencode(path)) gives a bytes name)"""
+    import mutagen
+    from mutagen import MutagenError
+    for fmt in F.FORMATS:
+        samples = fmt.samples[:3] if ctx.quick else fmt.samples
+        for sname in samples:
+            data = F.sample_bytes(ctx.repo, sname)
+            for ext in (fmt.exts[:1] if ctx.quick else fmt.exts[:2]):
+                name = "g" + ext
+                path = os.path.join(tmpdir, name)
+                with open(path, "wb") as h:
+                    h.write(data)
+                base = None
+                for way in ("str", "bytes", "pathlike", "openfile", "openfile-bytesname", "bytesio", "bytesio-bytesname", "minimal",
+                            "kw-filename", "kw-fileobj"):
+                    handle = None
+                    try:
+                        if way == "str":
+                            r = mutagen.File(path)
+                        elif way == "bytes":
+                            r = mutagen.File(os.fsencode(path))
+                        elif way == "pathlike":
+                            r = mutagen.File(PL(path))
+                        elif way == "kw-filename":
+                            r = mutagen.File(filename=path)
+                        elif way == "openfile":
+                            handle = open(path, "rb"); r = mutagen.File(handle)
+                        elif way == "openfile-bytesname":
+                            handle = open(os.fsencode(path), "rb"); r = mutagen.File(handle)
+                        elif way == "bytesio":
+                            f = io.BytesIO(data); f.name = path; r = mutagen.File(f)
+                        elif way == "bytesio-bytesname":
+                            f = io.BytesIO(data); f.name = os.fsencode(path); r = mutagen.File(f)
+                        elif way == "kw-fileobj":
+                            f = io.BytesIO(data); f.name = path; r = mutagen.File(fileobj=f)
+                        else:
+                            f = MinimalFile(data, name=path); r = mutagen.File(f)
+                        out = (type(r).__name__, F.snapshot(fmt, r) if (r is not None and fmt.family != "none") else None)
+                    except MutagenError as e:
+                        out = ("MutagenError", None)
+                    except Exception as e:
+                        out = (type(e).__name__, None)
+                    finally:
+                        if handle is not None and not handle.closed:
+                            handle.close()
+                    case = {"format": fmt.kind, "sample": sname, "name": name, "way": way, "op": "File"}
+                    ctx.case(key=("File", fmt.kind, sname, ext, way), nontrivial=True, modelled=False, sample=None)
+                    ctx.hist["File-way:" + way] += 1
+                    if base is None:
+                        base = (way, out)
+                    elif out != base[1]:
+                        ctx.violation("differs:File:%s:%s-vs-%s" % (fmt.kind, out[0], base[1][0]),
+                                      "mutagen.File gives %s via %s but %s via %s" % (out[0], way, base[1][0], base[0]), case)
+
+
 class FakeObj(object):
     def __init__(self, ident, readable, writable):
         self.ident = ident; self.readable = readable; self.writable = writable
@@ -249,6 +307,7 @@ def run(ctx):
     tmpdir = tempfile.mkdtemp(prefix="verif-c17-")
     try:
         check_formats(ctx, tmpdir)
+        check_file_detection(ctx, tmpdir)
     finally:
         shutil.rmtree(tmpdir, ignore_errors=True)
     check_openfile_logic(ctx)
